@@ -297,6 +297,7 @@ type Config struct {
 	NoHook    bool `json:"no_hook,omitempty"`    // no BlockHook option (no segmentation, no FailSync; hook calls cannot be seen)
 	NonStrict bool `json:"non_strict,omitempty"` // StrictAdsSelector(false)
 	FilterIPs bool `json:"filter_ips,omitempty"` // RecvAnnounce(.., announce.WithFilterIPs(true)): loopback addresses are dropped from announcements
+	Trusted   bool `json:"trusted,omitempty"`    // the subscriber's link system has TrustedStorage = true (no hashing on load)
 }
 
 // Op is one sync of a history.
@@ -312,6 +313,10 @@ type Op struct {
 	Faults   []Fault `json:"faults,omitempty"`
 	DiscFail bool    `json:"disc_fail,omitempty"`
 	HookFail int     `json:"hook_fail"` // index of the hook call (within this op) that calls FailSync; -1 = none
+	// HookCancelAt k > 0: hook call k-1 (within this op) cancels the caller's context (explicit syncs)
+	HookCancelAt int `json:"hook_cancel_at,omitempty"`
+	// PreCancel: the caller's context is cancelled before the sync is called (explicit syncs)
+	PreCancel bool `json:"pre_cancel,omitempty"`
 }
 
 type Ev struct {
@@ -368,6 +373,8 @@ type Run struct {
 	hookLog  []int
 	hookFail int
 	hookN    int
+	hookCancelAt int
+	cancelOp     func()
 }
 
 func (w *World) logEnt(r Req) LogEnt {
@@ -397,13 +404,37 @@ func (w *World) NewRun(cfg Config) *Run {
 	r := &Run{W: w, Cfg: cfg, hookFail: -1, annOK: map[int]bool{}}
 	r.DS = dssync.MutexWrap(datastore.NewMapDatastore())
 	r.lsys = MkLinkSystem(r.DS)
+	r.lsys.TrustedStorage = cfg.Trusted
+	// cancellation "between the answer to a request and the next request": when the block
+	// brought by an okcancel request has been committed
+	inner := r.lsys.StorageWriteOpener
+	r.lsys.StorageWriteOpener = func(lctx ipld.LinkContext) (io.Writer, ipld.BlockWriteCommitter, error) {
+		wr, commit, err := inner(lctx)
+		if err != nil {
+			return wr, commit, err
+		}
+		return wr, func(lnk ipld.Link) error {
+			err := commit(lnk)
+			if c := w.S.TakeCancelOnCommit(); c != nil {
+				c()
+			}
+			return err
+		}, nil
+	}
 	hook := func(p peer.ID, c cid.Cid, act dagsync.SegmentSyncActions) {
 		r.hookMu.Lock()
 		k := r.hookN
 		r.hookN++
 		r.hookLog = append(r.hookLog, w.pos[c])
 		fail := r.hookFail == k
+		var cancelNow func()
+		if r.hookCancelAt == k+1 {
+			cancelNow = r.cancelOp
+		}
 		r.hookMu.Unlock()
+		if cancelNow != nil {
+			cancelNow()
+		}
 		// nominate the previous advertisement, as MakeGeneralBlockHook does
 		prev := cid.Undef
 		if q := w.pos[c]; q > 1 {
@@ -598,7 +629,7 @@ func (r *Run) Do(op Op) (o Obs) {
 	defer cancel()
 	w.S.Set(op.Faults, cancel, op.DiscFail)
 	r.hookMu.Lock()
-	r.hookLog, r.hookN, r.hookFail = nil, 0, op.HookFail
+	r.hookLog, r.hookN, r.hookFail, r.hookCancelAt, r.cancelOp = nil, 0, op.HookFail, op.HookCancelAt, cancel
 	r.hookMu.Unlock()
 	o.Latest0 = r.latest()
 	addrs := make([]multiaddr.Multiaddr, len(op.Addrs))
@@ -620,6 +651,9 @@ func (r *Run) Do(op Op) (o Obs) {
 			type ret struct {
 				c   cid.Cid
 				err error
+			}
+			if op.PreCancel {
+				cancel()
 			}
 			rc := make(chan ret, 1)
 			go func() {
